@@ -120,7 +120,7 @@ theorem idInv_of_pres {s s' : State} (hp : Pres s s') (hd : UidsDistinct s') (h 
 /-- forwarding (any frame, any fuel) preserves the identity invariant -/
 theorem forward_idInv (cfg : Cfg) (fuel : Nat) (s : State) (g : Frame) (hg : ∀ k, g.body ≠ .data k)
     (hd : UidsDistinct (forward cfg fuel s g)) (h : IdInv s) : IdInv (forward cfg fuel s g) :=
-  idInv_of_pres (forward_ok (tag_data 0) cfg fuel s g (by simpa using hg 0)).1 hd h
+  idInv_of_pres (forward_ok cfg (tag_data cfg 0) fuel s g (by simpa using hg 0)).1 hd h
 
 theorem clash_false_id {me o : Module} (h : clash me o = false) (hid : o.modId = me.modId) :
     o.unique = false ∧ me.unique = false := by
